@@ -29,7 +29,21 @@ func schemas(variant int) []*m.Schema {
 	if variant%2 == 1 {
 		g.Index = []string{"n"}
 	}
-	return []*m.Schema{a, g, c}
+	// w: composite secondary indexes (two and three columns, non-unique and unique); p, q, r
+	// take few values so that equalities on the leading column hit, (u, v) is mostly distinct
+	w := &m.Schema{Name: "w", Cols: []m.Col{{Name: "id", Kind: m.Int, NotNull: true}, {Name: "p", Kind: m.Int}, {Name: "q", Kind: m.Int}, {Name: "r", Kind: m.Int},
+		{Name: "u", Kind: m.Int, NotNull: true}, {Name: "v", Kind: m.Int, NotNull: true}, {Name: "s", Kind: m.Str}}}
+	switch variant % 4 {
+	case 0:
+		w.Index, w.Unique = []string{"p, q"}, []string{"u, v"}
+	case 1:
+		w.Index, w.Unique = []string{"p, q, r"}, []string{"u, v"}
+	case 2:
+		w.Index = []string{"p, q", "q, r"}
+	default:
+		w.Index, w.Unique = []string{"p, q, r", "r"}, []string{"u, v"}
+	}
+	return []*m.Schema{a, g, c, w}
 }
 
 const checkName = "c_n_max" // CHECK (n < 100) on table c
@@ -57,12 +71,30 @@ func (g *gen) val(c m.Col, allowNull bool) m.Val {
 	}
 	switch c.Kind {
 	case m.Int:
-		return int64(g.r.IntN(10))
+		return int64(g.r.IntN(domain(c.Name)))
 	case m.Str:
 		return g.payload()
 	}
 	return g.r.IntN(2) == 0
 }
+
+// domain: how many values an INTEGER column takes.
+func domain(col string) int {
+	switch col {
+	case "p", "q", "r":
+		return 4
+	case "u":
+		return 6
+	case "v":
+		return 40
+	}
+	return 10
+}
+
+// indexes lists every secondary index of a table.
+func indexes(s *m.Schema) []string { return append(append([]string{}, s.Index...), s.Unique...) }
+
+func leadingCol(ix string) string { return strings.Split(ix, ", ")[0] }
 
 func (g *gen) pk(fresh bool) int64 {
 	if fresh {
@@ -74,8 +106,9 @@ func (g *gen) pk(fresh bool) int64 {
 // pred: forHint = the statement names the secondary index; dml = the predicate belongs to
 // UPDATE/DELETE. An equality or IS NULL on an indexed column moves an unhinted scan to that
 // index: never generated for DML, and for queries only when nothing runs concurrently.
-func (g *gen) pred(s *m.Schema, forHint, dml bool) m.Pred {
+func (g *gen) pred(s *m.Schema, hint string, dml bool) m.Pred {
 	var p m.Pred
+	forHint := hint != ""
 	n := g.r.IntN(3)
 	if forHint && n == 0 {
 		n = 1
@@ -83,7 +116,7 @@ func (g *gen) pred(s *m.Schema, forHint, dml bool) m.Pred {
 	for i := 0; i < n; i++ {
 		ci := g.r.IntN(len(s.Cols))
 		if forHint && i == 0 {
-			ci = s.ColIdx("n")
+			ci = s.ColIdx(leadingCol(hint))
 		}
 		c := s.Cols[ci]
 		switch {
@@ -101,7 +134,7 @@ func (g *gen) pred(s *m.Schema, forHint, dml bool) m.Pred {
 			if forHint || !g.maybeIndexed(s, c.Name) || !g.multi {
 				ops = append(ops, "=")
 			}
-			p = append(p, m.Cmp{Col: c.Name, Op: ops[g.r.IntN(len(ops))], Val: int64(g.r.IntN(10))})
+			p = append(p, m.Cmp{Col: c.Name, Op: ops[g.r.IntN(len(ops))], Val: int64(g.r.IntN(domain(c.Name)))})
 		case c.Kind == m.Bool:
 			p = append(p, m.Cmp{Col: c.Name, Op: "=", Val: g.r.IntN(2) == 0})
 		default:
@@ -115,9 +148,11 @@ func (g *gen) maybeIndexed(s *m.Schema, col string) bool {
 	return indexed(s, col) || (g.ddl && s.Name == "c" && col == "s") // CREATE INDEX ON c(s) may have been committed
 }
 
+// indexed: col is the leading column of a secondary index (an equality or IS NULL on it lets
+// the planner move an unhinted scan to that index).
 func indexed(s *m.Schema, col string) bool {
-	for _, c := range s.Index {
-		if c == col {
+	for _, ix := range indexes(s) {
+		if leadingCol(ix) == col {
 			return true
 		}
 	}
@@ -141,11 +176,13 @@ func (g *gen) query(s *m.Schema) *m.Stmt {
 	}
 	// a scan through the secondary index of a table this transaction already wrote to is
 	// only generated when nothing runs concurrently (see attribution pass b)
-	if len(s.Index) > 0 && (g.r.IntN(3) == 0 || (!g.multi && g.written[s.Name] && g.r.IntN(2) == 0)) && (!g.multi || !g.written[s.Name]) {
-		st.Hint = s.Index[0]
-		st.Where = g.pred(s, true, false)
+	if ixs := indexes(s); len(ixs) > 0 && (g.r.IntN(3) == 0 || (!g.multi && g.written[s.Name] && g.r.IntN(2) == 0)) && (!g.multi || !g.written[s.Name]) {
+		st.Hint = ixs[g.r.IntN(len(ixs))]
+		if g.r.IntN(4) > 0 {
+			st.Where = g.pred(s, st.Hint, false)
+		}
 	} else if g.r.IntN(3) > 0 {
-		st.Where = g.pred(s, false, false)
+		st.Where = g.pred(s, "", false)
 	}
 	return st
 }
@@ -188,7 +225,7 @@ func (g *gen) dml(s *m.Schema) *m.Stmt {
 		st.Rows = append(st.Rows, g.insertRow(s, st.Cols, g.r.IntN(2) == 0))
 		return st
 	case k < 9:
-		st := &m.Stmt{Kind: m.Update, Table: s.Name, Where: g.pred(s, false, true)}
+		st := &m.Stmt{Kind: m.Update, Table: s.Name, Where: g.pred(s, "", true)}
 		ci := 1 + g.r.IntN(len(s.Cols)-1)
 		st.Set = append(st.Set, m.Assign{Col: s.Cols[ci].Name, Val: g.val(s.Cols[ci], true)})
 		if cj := 1 + g.r.IntN(len(s.Cols)-1); cj != ci && g.r.IntN(3) == 0 {
@@ -196,7 +233,7 @@ func (g *gen) dml(s *m.Schema) *m.Stmt {
 		}
 		return st
 	}
-	return &m.Stmt{Kind: m.Delete, Table: s.Name, Where: g.pred(s, false, true)}
+	return &m.Stmt{Kind: m.Delete, Table: s.Name, Where: g.pred(s, "", true)}
 }
 
 // fault turns an INSERT into one that must fail (NULL into NOT NULL, omitted NOT NULL
@@ -263,6 +300,9 @@ func genProg(r *rand.Rand, sch []*m.Schema, tag string, sess int, multi, readOnl
 		p.End = "rollback"
 	default:
 		p.End = "cancel"
+	}
+	if !multi && r.IntN(5) < 2 {
+		return g.indexProg(p, sch[3])
 	}
 	n := 1 + r.IntN(8)
 	faultPos := -1
@@ -385,6 +425,114 @@ func (g *gen) ddlProg(p *txProg, cs *m.Schema) *txProg {
 			p.Stmts = append(p.Stmts, st)
 		default:
 			p.Stmts = append(p.Stmts, g.dml(g.sch[r.IntN(len(g.sch))]))
+		}
+	}
+	return p
+}
+
+// indexProg: rewrites of indexed columns followed, in the SAME transaction, by reads and by
+// UPDATE / DELETE through every secondary index of the table (named with USE INDEX ON, or
+// chosen by the planner because of an equality on the leading column). Only generated when
+// nothing runs concurrently, so every result is a function of the program alone.
+func (g *gen) indexProg(p *txProg, s *m.Schema) *txProg {
+	r := g.r
+	p.Script = false
+	ixs := indexes(s)
+	known := []int64{1, 2, 3} // keys that exist at the start of the case
+	someKey := func() int64 {
+		if r.IntN(4) == 0 {
+			return g.pk(false)
+		}
+		return known[r.IntN(len(known))]
+	}
+	// a predicate that reaches rows through index ix: equality on its leading column
+	// (with or without naming the index), or a key predicate plus the hint
+	through := func(st *m.Stmt, ix string) {
+		lead := leadingCol(ix)
+		switch r.IntN(4) {
+		case 0: // the planner picks the index by itself
+			st.Where = m.Pred{{Col: lead, Op: "=", Val: int64(r.IntN(domain(lead)))}}
+		case 1:
+			st.Hint = ix
+			st.Where = m.Pred{{Col: lead, Op: "=", Val: int64(r.IntN(domain(lead)))}}
+		case 2:
+			st.Hint = ix
+			st.Where = m.Pred{{Col: lead, Op: []string{"<", ">=", "<>"}[r.IntN(3)], Val: int64(r.IntN(domain(lead)))}}
+		default:
+			st.Hint = ix
+		}
+		if r.IntN(4) == 0 {
+			st.Where = append(st.Where, g.pred(s, "", false)...)
+		}
+	}
+	read := func() *m.Stmt {
+		st := &m.Stmt{Kind: m.Select, Table: s.Name, Cols: colNames(s)}
+		if r.IntN(3) == 0 {
+			st.Kind, st.Cols = m.Count, nil
+		}
+		through(st, ixs[r.IntN(len(ixs))])
+		return st
+	}
+	g.written[s.Name] = true
+	n := 3 + r.IntN(6)
+	for i := 0; i < n; i++ {
+		switch k := r.IntN(12); {
+		case k < 2:
+			st := &m.Stmt{Kind: m.Insert, Table: s.Name, Cols: colNames(s)}
+			row := g.insertRow(s, st.Cols, true)
+			st.Rows = [][]m.Val{row}
+			known = append(known, row[0].(int64))
+			p.Stmts = append(p.Stmts, st)
+		case k < 7:
+			// rewrite a subset of the columns of one index: first only, last only, a middle
+			// one, all, or none of them
+			cols := strings.Split(ixs[r.IntN(len(ixs))], ", ")
+			var set []string
+			switch r.IntN(5) {
+			case 0:
+				set = cols[:1]
+			case 1:
+				set = cols[len(cols)-1:]
+			case 2:
+				set = []string{cols[len(cols)/2]}
+			case 3:
+				set = cols
+			default:
+				set = []string{"s"}
+			}
+			st := &m.Stmt{Kind: m.Update, Table: s.Name}
+			for _, cn := range set {
+				st.Set = append(st.Set, m.Assign{Col: cn, Val: g.val(s.Cols[s.ColIdx(cn)], r.IntN(6) == 0)})
+			}
+			switch r.IntN(4) {
+			case 0:
+				through(st, ixs[r.IntN(len(ixs))])
+			case 1:
+				st.Where = m.Pred{{Col: "id", Op: "<=", Val: someKey()}}
+			default:
+				st.Where = m.Pred{{Col: "id", Op: "=", Val: someKey()}}
+			}
+			p.Stmts = append(p.Stmts, st)
+		case k < 8:
+			st := &m.Stmt{Kind: m.Upsert, Table: s.Name, Cols: colNames(s)}
+			row := g.insertRow(s, st.Cols, false)
+			row[0] = someKey()
+			st.Rows = [][]m.Val{row}
+			p.Stmts = append(p.Stmts, st)
+		case k < 9:
+			st := &m.Stmt{Kind: m.Delete, Table: s.Name}
+			if r.IntN(2) == 0 {
+				through(st, ixs[r.IntN(len(ixs))])
+			} else {
+				st.Where = m.Pred{{Col: "id", Op: "=", Val: someKey()}}
+			}
+			p.Stmts = append(p.Stmts, st)
+		default:
+			p.Stmts = append(p.Stmts, read())
+		}
+		// look at what the statement left behind through one of the indexes
+		if last := p.Stmts[len(p.Stmts)-1]; last.IsDML() && r.IntN(3) > 0 {
+			p.Stmts = append(p.Stmts, read())
 		}
 	}
 	return p
